@@ -21,6 +21,16 @@ NA = {
 PENDING = "static rule designed in DESIGN section 3; check not yet registered (under construction)"
 
 CHECKS = {
+ "C13": {
+  "text": "Four value-provenance obligations decided over MIR on every path: add_defun hashes value.code, stores the same value, "
+          "keys the symbol by that hash and maps it to the function's own name/arguments; codegen_ hands add_defun the unchanged "
+          "result of the last per-function rewrite; finalize_env_ lays the stored code into the environment through clone/borrow "
+          "only; the reported symbols are copied from function_symbols after the last codegen_ call. Structural clause only.",
+  "note": "Not decided: that whole-program passes leave quoted bodies untouched; the 'every reachable function has an entry' "
+          "clause; the behavioural 'extracting and running gives the function's result' clause (value-level).",
+  "technique": "MIR value-flow (derives-from) obligations + combinator-chain analysis",
+  "design": "3.7",
+ },
  "C10": {
   "text": "Decides, on every path of the current sources, the presence of the rejection mechanisms the property depends on: "
           "guarded-insert typestate for the inline-recursion set and for duplicate assign bindings, redefinition guard on both "
